@@ -22,6 +22,8 @@ func runC18(c *core.Ctx) core.Meta {
 	p := NewPkgInfo(c, rdmaPkg)
 	prov := core.NewProv(c)
 
+	checkBenchmarkSplits(c)
+
 	// R18.1 SEND-DISCIPLINE
 	RunProto(c, &ProtoCfg{
 		AllEffectsAfterSend: true,
